@@ -134,9 +134,21 @@ class Repo:
 
 
 def _find_def(body, name):
-    for node in ast.walk(ast.Module(body=list(body), type_ignores=[])):
-        if isinstance(node, (ast.FunctionDef, ast.ClassDef)) and node.name == name:
-            return node
+    """Definition `name` in this scope (not inside nested function/class bodies of other definitions)."""
+    todo = list(body)
+    while todo:
+        node = todo.pop(0)
+        if isinstance(node, (ast.FunctionDef, ast.ClassDef)):
+            if node.name == name:
+                return node
+            continue
+        for fld in ("body", "orelse", "finalbody"):
+            sub = getattr(node, fld, None)
+            if isinstance(sub, list):
+                todo.extend(sub)
+        if isinstance(node, ast.Try):
+            for h in node.handlers:
+                todo.extend(h.body)
     return None
 
 
